@@ -30,8 +30,8 @@ Ltac tie_loops model_step :=
 (** [evolve]: the positional-argument convention, the loop that completes the keyword arguments from
     the original (skip init=False; key = alias; read by NAME; only when the caller did not give the
     key; a failing read ends the call) and the final call of the class with keywords only. *)
-Lemma tie_evolve : forall k inh f von args changes,
-  t_evolve k inh f von args changes = evolve_star k f von args changes.
+Lemma tie_evolve : forall oq k inh f von args changes,
+  t_evolve oq k inh f von args changes = evolve_star k f von args changes.
 Proof.
   intros. rewrite evolve_star_lfold. unfold t_evolve. tie_unfold.
   destruct args as [|i [|j r]]; try reflexivity.
@@ -40,8 +40,8 @@ Qed.
 
 (** [assoc]: shallow copy, reset of a computed hash cache, per key the lookup on the fields tuple
     accepting Attribute objects only, raw store, AttrsAttributeNotFoundError otherwise. *)
-Lemma tie_assoc : forall k inh i changes,
-  t_assoc k inh i changes = assoc_star k inh i changes.
+Lemma tie_assoc : forall oq k inh i changes,
+  t_assoc oq k inh i changes = assoc_star k inh i changes.
 Proof.
   intros. rewrite assoc_star_lfold. unfold t_assoc, reset_cache. cbv delta [HASH_CACHE]. tie_unfold.
   repeat (tie_simpl; break_atom); tie_simpl; try reflexivity; try congruence;
@@ -49,19 +49,19 @@ Proof.
 Qed.
 
 (** Consequences: the property theorems speak about the regenerated code. *)
-Corollary t_evolve_is_construction : forall k inh f von i changes,
+Corollary t_evolve_is_construction : forall oq k inh f von i changes,
   aliases_unique k -> readable k i (map fst changes) ->
-  t_evolve k inh f von [i] changes = POk (run_init k f von [] (evolve_kw k i changes)).
+  t_evolve oq k inh f von [i] changes = POk (run_init k f von [] (evolve_kw k i changes)).
 Proof.
-  intros k inh f von i changes U R. rewrite tie_evolve. unfold evolve_star.
+  intros oq k inh f von i changes U R. rewrite tie_evolve. unfold evolve_star.
   now rewrite (evolve_runs_init k f von i changes U R).
 Qed.
 
-Corollary t_assoc_only_fields : forall k inh i changes new,
-  t_assoc k inh i changes = POk new ->
+Corollary t_assoc_only_fields : forall oq k inh i changes new,
+  t_assoc oq k inh i changes = POk new ->
   forall n, In n (map fst changes) -> In n (map a_name (k_attrs k)).
 Proof.
-  intros k inh i changes new H. rewrite tie_assoc in H. unfold assoc_star in H.
+  intros oq k inh i changes new H. rewrite tie_assoc in H. unfold assoc_star in H.
   destruct (assoc k inh i changes) as [i' o] eqn:E. cbn in H. destruct o; try discriminate. inversion H; subst.
   pose proof (assoc_original_untouched_l k inh i changes) as Hi. rewrite E in Hi. cbn in Hi. subst i'.
   now apply (assoc_only_fields_l k inh i changes new).
